@@ -203,7 +203,7 @@ impl Prop for C08Prop {
         }
         // very long lines (the Lean model is not built for megabyte inputs: these five are judged
         // by construction, request `parsehuge <k>`, see `run_huge`)
-        for k in 0..5 {
+        for k in 0..8 {
             out.push(Case { req: format!("parsehuge {}", k), in_domain: true, nontrivial: true, tags: vec!["huge-line"] });
         }
         for l in GOOD_LINES.iter().chain(BAD_LINES.iter()) {
@@ -329,7 +329,10 @@ fn run_huge(k: usize) -> String {
         1 => format!("echo first\nout = echo {} \"unterminated\necho last\n", many),
         2 => format!("echo first\nout = echo {}\"unterminated\necho last\n", long_word),
         3 => format!("echo first\n\nout = echo {}a\\qb\n", long_word),
-        _ => format!("out = echo \"{}\"\n", long_word),
+        4 => format!("out = echo \"{}\"\n", long_word),
+        // very many LINES (5 = 5 000, 6 = 70 001, 7 = 4 096 exactly): one instruction per line,
+        // numbered 1..n, whatever block size an implementation may split the text into
+        _ => (0..[5_000usize, 70_001, 4_096][k - 5]).map(|i| if i % 7 == 3 { String::new() } else { format!("v{} = set {}", i % 13, i) }).collect::<Vec<_>>().join("\n"),
     };
     let r = duckscript::parser::parse_text(&text);
     let line_of = |m: &duckscript::types::instruction::InstructionMetaInfo| m.line.unwrap_or(0);
@@ -344,6 +347,18 @@ fn run_huge(k: usize) -> String {
         }
         (1, Err(ScriptError::MissingEndQuotes(m))) | (2, Err(ScriptError::MissingEndQuotes(m))) => line_of(m) == 2,
         (3, Err(ScriptError::ControlWithoutValidValue(m))) => line_of(m) == 3,
+        (5..=7, Ok(is)) => {
+            let n = [5_000usize, 70_001, 4_096][k - 5];
+            is.len() == n
+                && is.iter().enumerate().all(|(i, ins)| {
+                    ins.meta_info.line == Some(i + 1)
+                        && match &ins.instruction_type {
+                            InstructionType::Empty => i % 7 == 3,
+                            InstructionType::Script(s) => i % 7 != 3 && s.arguments.as_ref().map_or(false, |a| a.len() == 1 && a[0] == i.to_string()),
+                            _ => false,
+                        }
+                })
+        }
         (4, Ok(is)) => {
             is.len() == 1
                 && match &is[0].instruction_type {
